@@ -2,6 +2,7 @@ import DeltaModel.Blame
 import Proofs.BlameColour
 import Proofs.BlameParse
 import Proofs.BlameRender
+import Proofs.BlameFormat
 /-!
 C17 — git blame output keeps code and attribution; colours follow commits.
 
@@ -297,6 +298,126 @@ example : formatMeta 0 (fun _ => 1)
      ⟨[' '], some .commit, some .left, some 8, none, []⟩]
     "2021-08-22".toList "Dan Davison".toList "abcd123".toList =
     .ok "2021-08-22      Dan Davison     abcd123 ".toList := by decide
+
+/-! ## The blame format string (`--blame-format`, src/format.rs)
+
+`handle_blame_line` parses `config.blame_format` with `parse_line_number_format` and the regex of
+`make_placeholder_regex(["timestamp", "author", "commit"])` on every line; what that returns decides
+which fields the metadata — and therefore the colour key — contains. Model:
+`DeltaModel/BlameFormat.lean` (`PF.parseBlameFormat`), executed by `drv_blame` (`blame.format_data`)
+and compared with the implementation's `blame.format_data` / `linenum.parse_format`. The same regex
+and parser serve `--blame-separator-format` (label `n`) and `--line-numbers-left/right-format`
+(labels `nm`, `np`): `format_round_trip` is stated for every label set. -/
+
+/-- The pattern text of `make_placeholder_regex` and the capture group each field of
+`FormatStringPlaceholderData` is read from are the ones `PF.matchAfterBrace` / `PF.mkItem` were
+written against (both re-read from src/format.rs on every run). -/
+theorem placeholder_regex_pinned :
+    Generated.BlameFormat.regexBody =
+      "(?x)\\{{({})(?::(?:([^<^>])?([<^>]))?(\\d+)?(?:\\.(\\d+))?(?:_?([A-Za-z][0-9A-Za-z_-]*))?)?\\}}" ∧
+    Generated.BlameFormat.captureUse =
+      [("placeholder", 1), ("alignment_spec", 3), ("width", 4), ("precision", 5), ("fmt_type", 6)] :=
+  ⟨rfl, rfl⟩
+
+/-- Facts about the generated character classes, `Align::try_from` and the label lists that make the
+pattern deterministic (the first alternative that applies is the only one that can succeed) and the
+formatter invertible; and: the label `timestamp` prints the time, `author` the author, `commit` the
+commit (arms of `format_blame_metadata`). -/
+theorem placeholder_classes_deterministic :
+    PF.classesOk = true ∧
+    PF.labelsOk Generated.BlameFormat.blameLabels = true ∧
+    PF.labelsOk Generated.BlameFormat.separatorLabels = true ∧
+    PF.labelsOk Generated.BlameFormat.lineNumberLabels = true ∧
+    PF.fieldOfLabel "timestamp".toList = some .timestamp ∧
+    PF.fieldOfLabel "author".toList = some .author ∧
+    PF.fieldOfLabel "commit".toList = some .commit ∧
+    Generated.BlameFormat.blameLabels = ["timestamp".toList, "author".toList, "commit".toList] := by
+  decide
+
+/-- `parse (fmt spec) = some spec` for the whole placeholder grammar: a format string written as
+literal text and placeholders `{label[:[[fill]align][width][.precision][[_]type]]}` — every part
+optional and independent of the others, in particular a precision without a width (`{commit:.7}`)
+and a width without a precision — is split by `parse_line_number_format` into exactly these
+placeholders with these alignments, widths, precisions and types and the literal text between them.
+For every label set without `:` / `}` (blame, blame separator, line numbers); literal text may
+contain `{` when it is followed by a character no label starts with; widths and precisions up to
+`usize::MAX`; any fill character other than `<^>`. -/
+theorem format_round_trip (labels : List Str) (hlab : PF.labelsOk labels = true)
+    (ps : List PF.Piece) (tail : Str) (hps : PF.piecesOk labels ps)
+    (ht : PF.litOk labels tail = true) :
+    PF.parseFormat labels (PF.render ps tail) = .ok (PF.expected ps tail) :=
+  PF.parseFormat_render labels hlab ps tail hps ht
+
+def exPieces : List PF.Piece :=
+  [⟨[], { label := "author".toList, fill := some '*', align := some .left, width := some 20 }⟩,
+   ⟨" {x} ".toList, { label := "commit".toList, prec := some 7, under := true, ty := "t-1".toList }⟩,
+   ⟨"|".toList, { label := "timestamp".toList, align := some .center, width := some 30, prec := some 10 }⟩]
+
+example : PF.labelsOk Generated.BlameFormat.blameLabels = true ∧
+    PF.piecesOk Generated.BlameFormat.blameLabels exPieces ∧
+    PF.litOk Generated.BlameFormat.blameLabels " }".toList = true ∧
+    String.ofList (PF.render exPieces " }".toList) =
+      "{author:*<20} {x} {commit:.7_t-1}|{timestamp:^30.10} }" := by
+  refine ⟨by decide, ?_, by decide, by decide⟩
+  intro p hp
+  simp only [exPieces, List.mem_cons, List.not_mem_nil, or_false] at hp
+  rcases hp with e | e | e <;> subst e <;> decide
+
+/-- ... in particular for `--blame-format`, as the items `format_blame_metadata` reads. -/
+theorem blame_format_round_trip (ps : List PF.Piece) (tail : Str)
+    (hps : PF.piecesOk Generated.BlameFormat.blameLabels ps)
+    (ht : PF.litOk Generated.BlameFormat.blameLabels tail = true) :
+    PF.parseBlameFormat (PF.render ps tail) = .ok (PF.blameExpected ps tail) :=
+  PF.parseBlameFormat_render ps tail hps ht
+
+/-- The format of the seeded change C17-w5-07: a precision-only placeholder is a placeholder. -/
+theorem precision_only_placeholder_parses :
+    PF.parseBlameFormat "{author:<20} {commit:.7} {timestamp}".toList =
+      .ok [⟨[], some .author, some .left, some 20, none, " {commit:.7} {timestamp}".toList⟩,
+           ⟨[' '], some .commit, none, none, some 7, " {timestamp}".toList⟩,
+           ⟨[' '], some .timestamp, none, none, none, []⟩] := by
+  decide
+
+/-- For every blame format string of the grammar, the metadata (= colour key, = what repeat-blanking
+compares) that `format_blame_metadata` builds from the *parsed format string* shows the field of
+every placeholder written in it — whole, or its first `n` characters under `.n`. -/
+theorem format_shows_attribution (arith : Nat) (cw : Char → Nat) (ps : List PF.Piece) (tail : Str)
+    (hps : PF.piecesOk Generated.BlameFormat.blameLabels ps)
+    (ht : PF.litOk Generated.BlameFormat.blameLabels tail = true)
+    (ts author commit key : Str) (items : List Item)
+    (hparse : PF.parseBlameFormat (PF.render ps tail) = .ok items)
+    (hk : formatMeta arith cw items ts author commit = .ok key)
+    (p : PF.Piece) (hp : p ∈ ps) (f : Field) (hf : PF.fieldOfLabel p.spec.label = some f) :
+    (match p.spec.prec with
+     | none => fieldText f ts author commit
+     | some n => (fieldText f ts author commit).take n) <:+: key := by
+  rw [PF.parseBlameFormat_render ps tail hps ht] at hparse
+  injection hparse with hparse
+  subst hparse
+  exact PF.blameFormat_shows arith cw ps tail ts author commit key hk p hp f hf
+
+/-- All blame format strings that include the commit show the commit: whatever else the format
+contains, and however the `{commit}` placeholder is written (fill, alignment, width, precision —
+alone or combined —, type), the key contains the commit (its first `n` characters under `.n`). -/
+theorem format_with_commit_shows_commit (arith : Nat) (cw : Char → Nat) (ps : List PF.Piece) (tail : Str)
+    (hps : PF.piecesOk Generated.BlameFormat.blameLabels ps)
+    (ht : PF.litOk Generated.BlameFormat.blameLabels tail = true)
+    (ts author commit key : Str) (items : List Item)
+    (hparse : PF.parseBlameFormat (PF.render ps tail) = .ok items)
+    (hk : formatMeta arith cw items ts author commit = .ok key)
+    (p : PF.Piece) (hp : p ∈ ps) (hc : p.spec.label = "commit".toList) :
+    (match p.spec.prec with
+     | none => commit
+     | some n => commit.take n) <:+: key := by
+  have hf : PF.fieldOfLabel p.spec.label = some .commit := by rw [hc]; decide
+  exact format_shows_attribution arith cw ps tail hps ht ts author commit key items hparse hk p hp
+    .commit hf
+
+example : (PF.parseBlameFormat (PF.render exPieces " }".toList)).bind
+      (fun items => (formatMeta 1 (fun _ => 1) items "2021-08-22 18:20:19 -0700".toList "Dan Davison".toList
+        "3f1c2a9e".toList).toOption.elim (.error .unknownLabel) .ok) =
+    .ok "Dan Davison          {x} 3f1c2a9        |          2021-08-22           }".toList := by
+  decide
 
 /-- Colours follow commits: with a format whose last placeholder is `{commit}` (left aligned, no
 precision, a blank before it, nothing after it) the metadata key — which is what the colour memo
